@@ -2,6 +2,7 @@ package main
 
 import (
 	"fmt"
+	"os"
 	"go/types"
 	"strings"
 
@@ -211,7 +212,40 @@ func (ex *Exec) fnWriteSet(fn *ssa.Function, args []Val, pre *State, ctx *CtxV) 
 		}
 	}
 	var ws *WriteSet
-	if cached, ok := ex.wsCache[fn]; ok && !hasCallback {
+	if ct := ex.lookupContract(fn); ct != nil && ct.HasWrites {
+		if cached, ok := ex.wsCache[fn]; ok {
+			ws = cached
+		} else {
+			// declared (and proved) write set
+			ws = &WriteSet{fams: map[int]bool{}}
+			env := ex.envFor(fn, nil, nil, NewState(), nil)
+			for _, w := range ct.Writes {
+				e, err := ParseExpr(w)
+				if err != nil {
+					ex.unsupp("writes clause of %s: %v", ct.Func, err)
+					ws.all = true
+					continue
+				}
+				func() {
+					defer func() {
+						if r := recover(); r != nil {
+							ex.unsupp("writes clause of %s: cannot evaluate %s", ct.Func, w)
+							ws.all = true
+						}
+					}()
+					t := env.term(e)
+					if t.Op == "int" && t.Int.IsInt64() {
+						ws.fams[int(t.Int.Int64())] = true
+					} else {
+						ex.unsupp("writes clause of %s: %s is not a constant family", ct.Func, w)
+						ws.all = true
+					}
+				}()
+			}
+			ws.effects = ex.fnEffects(fn).world && ex.declaredEffects(fn)
+			ex.wsCache[fn] = ws
+		}
+	} else if cached, ok := ex.wsCache[fn]; ok && !hasCallback {
 		ws = cached
 	} else if hasCallback {
 		rec := ex.discover(func() {
@@ -247,6 +281,13 @@ func (ex *Exec) fnWriteSet(fn *ssa.Function, args []Val, pre *State, ctx *CtxV) 
 			ws = &WriteSet{fams: map[int]bool{}}
 		}
 		ex.wsCache[fn] = ws
+		if os.Getenv("ICSVC_DEBUG_WS") != "" {
+			var fl []int
+			for f := range ws.fams {
+				fl = append(fl, f)
+			}
+			fmt.Fprintf(os.Stderr, "writeset %s: fams=%v all=%v effects=%v\n", fn.Name(), fl, ws.all, ws.effects)
+		}
 	}
 	if ws == nil {
 		ws = &WriteSet{fams: map[int]bool{}}
@@ -263,6 +304,54 @@ func (ex *Exec) fnWriteSet(fn *ssa.Function, args []Val, pre *State, ctx *CtxV) 
 		}
 	}
 	return ws
+}
+
+// declaredEffects: does the function (transitively, syntactically) call a dependency command?
+func (ex *Exec) declaredEffects(fn *ssa.Function) bool {
+	seen := map[*ssa.Function]bool{}
+	var rec func(f *ssa.Function) bool
+	rec = func(f *ssa.Function) bool {
+		if seen[f] || f.Blocks == nil {
+			return false
+		}
+		seen[f] = true
+		for _, b := range f.Blocks {
+			for _, in := range b.Instrs {
+				c, ok := in.(ssa.CallInstruction)
+				if !ok {
+					continue
+				}
+				cc := c.Common()
+				if cc.IsInvoke() {
+					name := calleeName(cc)
+					if isKeeperIfaceName(name) && isCommandName(cc.Method.Name()) {
+						return true
+					}
+					continue
+				}
+				switch callee := cc.Value.(type) {
+				case *ssa.Function:
+					if rec(callee) {
+						return true
+					}
+				case *ssa.MakeClosure:
+					if rec(callee.Fn.(*ssa.Function)) {
+						return true
+					}
+				case *ssa.Builtin:
+				default:
+					return true // unknown function value
+				}
+			}
+		}
+		for _, af := range f.AnonFuncs {
+			if rec(af) {
+				return true
+			}
+		}
+		return false
+	}
+	return rec(fn)
 }
 
 // pureResult: the result of a function with a `pure` contract is an uninterpreted function of the store, the
